@@ -545,11 +545,11 @@ func init() {
 	})
 
 	register(&Rule{
-		Name:  "EFF-result",
-		Doc:   "the result of Clone, of (*Url).Parse and of BasicParser reaches no memory of the original / base except frozen configuration and referents that are never written",
-		Props: []string{"C13", "C12"},
+		Name:      "EFF-result",
+		Doc:       "the result of Clone, of (*Url).Parse and of BasicParser reaches no memory of the original / base except frozen configuration and referents that are never written",
+		Props:     []string{"C13", "C12"},
 		PropFloor: map[string]int{"C13": 3},
-		Floor: 3,
+		Floor:     3,
 		Run: func(c *Ctx, s *core.Sink) {
 			e := BuildEff(c)
 			type tgt struct {
